@@ -75,6 +75,9 @@ class Interp:
         self.summaries = summaries or {}     # callee id -> {path tuple: (lo, hi, prov)}
         self.profile = profile
         self.loop_heads = {L["head"] for L in body.loops()}
+        self.acc_loops = self._const_trip_accs()      # loop head -> constant trip count and its additive accumulators
+        self.acc_bound = {}                  # (loop head, local) -> upper bound entry + N * sum of the invariant addends
+        self._join_from = None
         self.syms = {}                       # id -> Sym (static info: prov/defn/ty); intervals live in State.iv
         self.next_id = 0
         self.join_syms = {}                  # (block, cellkey) -> sym id   (stable fresh symbols at joins)
@@ -94,6 +97,114 @@ class Interp:
         self.mut_ref_locals = self._mut_ref_locals()
         self.collect = False
         self.ite = {}                        # joined sym -> {pivot sym: [(pivot interval, value interval)]}
+
+    # ---- loops with a constant trip count ------------------------------------
+    def _const_trip_accs(self):
+        """{head: {"blocks", "N", "accs": {local: [addend operands]}}} for loops that iterate a fixed-size array by value or a
+        range with constant bounds, and the integer locals that the loop only ever changes by `l = l + x` with x defined
+        outside the loop (each add site outside nested loops).  After at most N iterations such a local is at most its
+        value at loop entry plus N times the sum of the addends' upper bounds: widening is clamped to that (see join)."""
+        import re as _re
+        body = self.body
+        out = {}
+        loops = body.loops()
+        for L in loops:
+            blocks = L["body"]
+            inner = set()
+            for o in loops:
+                if o is not L and o["body"] < blocks:
+                    inner |= o["body"]
+            n = None
+            for b in sorted(blocks - inner):
+                t = body.term(b)
+                if t["k"] != "call" or not (t["callee"].get("path") or "").endswith("Iterator::next"):
+                    continue
+                if not all(body.dominates(b, la) for la in L["latches"]):
+                    continue
+                full = t["callee"].get("full") or ""
+                m = _re.search(r"core::array::iter::IntoIter<.*, (\d+)(?:usize)?>", full)
+                if m:
+                    n = int(m.group(1))
+                elif "core::ops::range::Range<" in full and t["args"]:
+                    # next(&mut iter), iter = into_iter(Range { start: c0, end: c1 })
+                    pl = op_place(t["args"][0])
+                    for _ in range(4):
+                        sd = body.single_def(pl["l"]) if pl is not None and not [x for x in pl["p"] if x != "deref"] else None
+                        if sd is None:
+                            break
+                        if sd[2] == "assign" and sd[3]["k"] == "ref":
+                            pl = sd[3]["place"]
+                        elif sd[2] == "assign" and sd[3]["k"] in ("use", "cast"):
+                            pl = op_place(sd[3]["a"])
+                        elif sd[2] == "call" and (sd[3]["callee"].get("path") or "").endswith("into_iter") and sd[3]["args"]:
+                            pl = op_place(sd[3]["args"][0])
+                        elif sd[2] == "assign" and sd[3]["k"] == "agg" and "Range" in str(sd[3].get("adt") or ""):
+                            cs = [op_const(o) for o in sd[3].get("ops", [])]
+                            if len(cs) == 2 and cs[0] is not None and cs[1] is not None and cs[1] >= cs[0]:
+                                n = cs[1] - cs[0]
+                            break
+                        else:
+                            break
+            if n is None or n > 64:
+                continue
+            defs = body.defs()
+            accs = {}
+            for l, ds in defs.items():
+                ty = body.locals[l]["ty"]
+                if ty not in ("u64", "u32", "usize", "u16", "u8"):
+                    continue
+                ins = [d for d in ds if d[0] in blocks]
+                if not ins or len(ins) == len(ds):
+                    continue          # not changed in the loop, or no value at entry
+                xs = []
+                ok = True
+                for b, i, kind, payload in ins:
+                    if b in inner or kind != "assign":
+                        ok = False
+                        break
+                    rv = payload
+                    add = None
+                    if rv["k"] == "use":
+                        src = op_place(rv["a"])
+                        sd = body.single_def(src["l"]) if src is not None else None
+                        if src is not None and len(src["p"]) == 1 and sd and sd[2] == "assign" and sd[3]["k"] in ("checked", "bin") and sd[3].get("op") in ("AddWithOverflow", "Add") and sd[0] in blocks:
+                            add = sd[3]
+                    elif rv["k"] in ("bin",) and rv.get("op") in ("Add", "AddUnchecked"):
+                        add = rv
+                    if add is None:
+                        ok = False
+                        break
+                    x = None
+                    for me, other in (("a", "b"), ("b", "a")):
+                        pm = op_place(add[me])
+                        for _ in range(3):
+                            if pm is None or pm["p"] or pm["l"] == l:
+                                break
+                            sdm = body.single_def(pm["l"])
+                            pm = op_place(sdm[3]["a"]) if sdm and sdm[2] == "assign" and sdm[3]["k"] == "use" else None
+                        if pm is not None and not pm["p"] and pm["l"] == l:
+                            x = add[other]
+                    if x is None:
+                        ok = False
+                        break
+                    if op_const(x) is None:
+                        px = op_place(x)
+                        for _ in range(3):
+                            sdx = body.single_def(px["l"]) if px is not None and not px["p"] else None
+                            if sdx and sdx[2] == "assign" and sdx[3]["k"] == "use" and sdx[0] in blocks and op_place(sdx[3]["a"]) is not None:
+                                px = op_place(sdx[3]["a"])
+                            else:
+                                break
+                        if px is None or px["p"] or any(d[0] in blocks for d in defs.get(px["l"], [])):
+                            ok = False
+                            break
+                        x = {"copy": px}
+                    xs.append(x)
+                if ok and xs:
+                    accs[l] = xs
+            if accs:
+                out[L["head"]] = {"blocks": blocks, "N": n, "accs": accs}
+        return out
 
     # ---- symbols -----------------------------------------------------------
     def new_sym(self, key, lo, hi, prov=frozenset(), defn=None, ty=None):
@@ -1672,6 +1783,30 @@ class Interp:
     # ---- fixpoint -------------------------------------------------------------------------------------
     def join(self, b, old, new):
         """join state `new` into `old` (in-state of block b); returns (state, changed)"""
+        al = self.acc_loops.get(b)
+        if al is not None and self._join_from is not None and self._join_from not in al["blocks"]:
+            # arriving from outside the loop: (re)compute the accumulators' bounds from the entry state
+            for l, xs in al["accs"].items():
+                sid0 = new.cells.get((l,))
+                hi0 = self.iv(new, sid0)[1] if sid0 is not None else None
+                tot = 0
+                for x in xs:
+                    c = op_const(x)
+                    if c is not None:
+                        tot += c
+                        continue
+                    px = op_place(x)
+                    sx = new.cells.get((px["l"],)) if px is not None else None
+                    hx = self.iv(new, sx)[1] if sx is not None else None
+                    if hx is None:
+                        tot = None
+                        break
+                    tot += hx
+                if hi0 is None or tot is None:
+                    self.acc_bound[(b, l)] = None
+                else:
+                    prev = self.acc_bound.get((b, l), 0)
+                    self.acc_bound[(b, l)] = None if prev is None else max(prev, hi0 + al["N"] * tot)
         if old is None:
             return new.copy(), True
         changed = False
@@ -1724,6 +1859,9 @@ class Interp:
                     else:
                         lo = rng[0] if lo < lo_o else lo
                         hi = rng[1] if hi > hi_o else hi
+                if al is not None and len(k) == 1 and self.acc_bound.get((b, k[0])) is not None and hi is not None and hi > self.acc_bound[(b, k[0])] >= lo:
+                    # at most N trips, each adding at most the invariant addends: see _const_trip_accs
+                    hi = self.acc_bound[(b, k[0])]
             if (lo, hi) != (lo_o, hi_o) or sid != so:
                 changed = True
             if so != sn and lo_o is not None and lo_n is not None and (lo_o, hi_o) != (lo_n, hi_n):
@@ -1884,7 +2022,9 @@ class Interp:
             self._ret_skip = True
             for succ, s2 in self.successors_nocollect(st, b):
                 old = self.in_states.get(succ)
+                self._join_from = b
                 joined, ch = self.join(succ, old, s2)
+                self._join_from = None
                 if ch:
                     self.in_states[succ] = joined
                     if succ not in inwork:
